@@ -2,7 +2,7 @@
 import numpy as np
 
 from vmon import events
-from vmon.gen import patterns, planted
+from vmon.gen import inplace, patterns, planted
 
 PROPERTY = "C01"
 RULE = ("The C01 postcondition (icontract `ensure` on the real find_pattern_in_structure: tuple shape, index range, "
@@ -12,7 +12,9 @@ RULE = ("The C01 postcondition (icontract `ensure` on the real find_pattern_in_s
         "evaluated on every search of a hostile workload: planted structures as in C02 with decoys aimed at the "
         "rotation re-check (mirror images of chiral patterns, atoms displaced tangentially by 2-2.8*atol, near "
         "misses), every valid hint class incl. index 0, tolerances {0.01,0.05,0.2,0.5}, RNG schedules, searches made "
-        "directly (both return shapes) and through replace_pattern_in_structure. Non-trivial: the case produced at "
+        "directly (both return shapes), through replace_pattern_in_structure, and again on the same object after it was "
+        "edited where it is (translate()+wrap, one atom moved, two atoms' positions swapped, one atom retyped - array "
+        "identities kept). Non-trivial: the case produced at "
         "least one reported match and contained at least one decoy or boundary-straddling copy; distinct by seed.")
 ASSUMPTIONS = ["domain guard per call: cell present, atoms inside the cell, perpendicular widths > diameter + 2*atol; calls outside are counted, not judged",
                "the bound is the code's own acceptance criterion (np.allclose: atol + 1e-5*|x|) relaxed to the optimal translation"]
@@ -87,6 +89,25 @@ def run_case(case, ctx):
         if type(e).__name__ == "PostBroken":
             raise
         st.count("replace_raised.%s" % type(e).__name__)
+    # the same object searched again after it was edited where it is: the postcondition judges the second search
+    # against the state it was made on (returned positions = stored positions + lattice vector, elements, rigid image)
+    for rep in range(2):
+        desc = inplace.edit_structure(rng, atoms)
+        events.seed_all(case["s"] + 50 + rep)
+        try:
+            if rep == 0:
+                idx, pos, quats = mofun.find_pattern_in_structure(atoms, patoms, atol=atol, return_positions_and_quats=True)
+            else:
+                idx = mofun.find_pattern_in_structure(atoms, patoms, atol=atol)
+            nmatches += len(idx)
+            st.count("matches_after_inplace_edit", len(idx))
+        except Exception as e:
+            if type(e).__name__ == "PostBroken":
+                raise
+            st.count("searches_that_raised.%s" % type(e).__name__)
+        st.count("direct_searches")
+        st.count("searches_after_inplace_edit")
+        st.seen("inplace_edit", desc[0])
     st.seen("pattern_frame", pat.get("frame", "random"))
     st.seen("pattern_class", pat["cls"])
     st.seen("cell_class", case["cell"])
@@ -114,6 +135,9 @@ def requirements(stats, tier):
         need.append("the chirality/rotation re-check rejected fewer than 10 candidates: decoys did not reach it")
     if stats.get("direct_searches") and sum(v for k, v in stats.counts.items() if k.startswith("searches_that_raised.")) > 0.2 * stats.get("direct_searches"):
         need.append("more than 20% of the searches raised: too little was observed")
+    if stats.get("matches_after_inplace_edit") < (100 if tier == "quick" else 5000) or stats.nseen("inplace_edit") < 4:
+        need.append("searches of an object edited in place since its last search: %d matches, edit kinds %s" %
+                    (stats.get("matches_after_inplace_edit"), sorted(stats.sets.get("inplace_edit", []))))
     if stats.nseen("hint_class") < 5:
         need.append("hint classes observed: %s" % sorted(stats.sets.get("hint_class", [])))
     if stats.get("hints_with_index_0") < 20:
